@@ -137,6 +137,11 @@ def selftest(work, events):
 
 def run(prop, tier, seed, replay=None):
     rep = vf.Report(prop, tier, seed)
+    import time
+    t0 = time.time()
+
+    def lap(what):
+        vf.log(f"{what}: t+{time.time() - t0:.0f}s")
     vf.build_harness()
     work = vf.fresh_workdir(f"{prop}-{tier}")
     mc_states = 0
@@ -151,6 +156,7 @@ def run(prop, tier, seed, replay=None):
             raise vf.ToolError(f"MC_SchemaWF model sanity failed: {r.violated} {sanity[:2]}")
         rep.add_states(r.distinct, r.generated)
         mc_states = r.distinct
+        lap("model checked")
         mc = []
         for s in sorted(set(r.tagged("SCN"))):
             j = json.loads(s)
@@ -175,8 +181,10 @@ def run(prop, tier, seed, replay=None):
     events = run_harness(work, scns, parts=1 if replay else 4)
     if len(events) != len(scns):
         raise vf.ToolError(f"harness recorded {len(events)} events for {len(scns)} scenarios")
+    lap("executed on the crate")
     verdicts, st, tr = vf.judge_events(work, "Trace_SchemaWF.tla", "Trace_SchemaWF.cfg", events, chunk=1200, jobs=4)
     rep.add_states(st, tr)
+    lap("judged")
     evs = [json.loads(l) for l in events]
     rep.cov["traces_validated_against_impl"] = len(events)
     rep.cov["evaluations"] = len(events)
